@@ -4,7 +4,7 @@ from __future__ import annotations
 import ast
 
 
-EXPLANATION = "(R1) per-block bodies and the particle file interpreted on a symbolic file: selected and skipped variables (types d/i/b) and step_over advance the byte position alike, every decode on its own record; (R2) descriptor_to_variables over the forms of select (dict with predicate / False, True, False, list, empty) with a previous load's pieces present; Loader.load fold over select None / dict / list / unknown group; (R3) only initialised readers open files and see records; reader.initialize histories on / off / files gone; (R4) vector assembly over 12 name sets; derived variables over 4 input sets. The body fold runs under partial selections of the AMR variables (each remaining variable from its own axis). (R5) an excluded sink group is not returned whatever the sink file looks like. R4 also requires that derived variables leave every loaded variable untouched."
+EXPLANATION = "(R1) per-block bodies and the particle file interpreted on a symbolic file: selected and skipped variables (types d/i/b) and step_over advance the byte position alike, every decode on its own record; (R2) descriptor_to_variables over the forms of select (dict with predicate / False, True, False, list, empty) with a previous load's pieces present; Loader.load fold over select None / dict / list / unknown group; (R3) only initialised readers open files and see records; reader.initialize histories on / off / files gone; (R4) vector assembly over 12 name sets; derived variables over 4 input sets. The body fold runs under partial selections of the AMR variables (each remaining variable from its own axis). (R5) an excluded sink group is not returned whatever the sink file looks like. R4 also requires that derived variables leave every loaded variable untouched. R2/R3 also require that load() leaves the caller's select / cpu_list / sortby unchanged (variable lists per group included)."
 NOT_DECIDED = 'values; descriptors with types other than d/i/b'
 TRUSTED = ('CPython ast', 'S1 layout', 'the interpreter sa/models.py (ModelEval) and its library models')
 TECHNIQUE = 'static analysis: abstract interpretation of the readers on a symbolic file, finite-case folding of the selection logic'
